@@ -33,7 +33,7 @@ def main():
     pid, n = sys.argv[1], sys.argv[2]
     keep = "--keep" in sys.argv
     thorough = "--thorough" in sys.argv
-    base = "/tmp/seed-%s" % pid
+    base = os.environ.get("SEED_BASE", "/tmp/seed-%s") % pid  # e.g. SEED_BASE=/tmp/seed2-%s
     wt = os.path.join(base, "repo")
     out = os.path.join(base, "out", n)
     patch = os.path.join(out, "patch.diff")
@@ -82,7 +82,7 @@ def main():
     for l in res.get("check_violation_lines", []):
         print("   ", l)
     if keep and res["confirmed"]:
-        dst = os.path.join(VERIF, "seeded", "%s-%s" % (pid, n))
+        dst = os.path.join(VERIF, "seeded", "%s-%d" % (pid, int(n) + int(os.environ.get("SEED_OFFSET", "0"))))
         shutil.rmtree(dst, ignore_errors=True)
         os.makedirs(dst)
         shutil.copy(patch, os.path.join(dst, "patch.diff"))
